@@ -358,12 +358,19 @@ class Rule(
         if configuration.modules_to_check is None:
             return None
 
+        # regular expressions are not module names: their text says nothing about parent and sub modules
         module_names = sorted(
-            map(lambda m: m.identifier, configuration.modules_to_check)
+            m.identifier
+            for m in configuration.modules_to_check
+            if not m.identifier_is_regex
         )
 
         result = []
         for module in configuration.modules_to_check:
+            if module.identifier_is_regex:
+                result.append(module)
+                continue
+
             parent_module_found = False
             for module_name in module_names:
                 if module.identifier.startswith(f"{module_name}."):
